@@ -192,6 +192,9 @@ func (s *Solver) solve(d *Decls, o *Obligation) *Result {
 			agg.TimeS, agg.Paths = t, p
 			agg.Info = fmt.Sprintf("%s (path %d of %d)", o.Info, i+1, len(all))
 		}
+		if agg.Status != "discharged" {
+			break // one failing path decides the obligation; the remaining paths are not needed
+		}
 	}
 	if agg == nil {
 		return &Result{Name: o.Name, Kind: o.Kind, Func: o.Func, Expect: o.Expect, Info: o.Info, Status: "discharged", Answer: "trivial", Solver: "syntactic"}
